@@ -238,6 +238,8 @@ class Fn:
         return self.line
 
     def describe_path(self, path):
+        if not path:
+            return "(none)"
         return " -> ".join("bb%d@%s" % (b, self.block_line(b)) for b in path)
 
     # -- definitions (flow-insensitive)
